@@ -86,6 +86,14 @@ TEXT_LINES = {
     'comment_setter': ('body', None),            # filled with the function name
     'deco_at': ('deco', None),
     'between_at': ('between', '# maintainer: me@example.org'),
+    # words that no decision of the library may depend on
+    'doc_yield': ('doc', 'Does not yield anything; compare the yield keyword.'),
+    'comment_yield': ('body', '# TODO: yield the items lazily instead'),
+    'string_yield': ('body', "_hint = 'yield from the backend'"),
+    'comment_async': ('body', '# an async def variant with await is planned'),
+    'doc_self': ('doc', 'Returns self (or cls), see return below.'),
+    'comment_classmethod': ('body', '# unlike a @classmethod or a lambda this keeps state'),
+    'doc_return': ('doc', 'return None; raise nothing; def nothing.'),
     'none': (None, None),
 }
 
@@ -376,9 +384,15 @@ def run_case(case):
     # the objects of the call
     args = []
     reified['args'], reified['kwargs'] = [], []
+    def is_recv(v):      # the abstract value of the receiver itself (instances of the generated class K / Sub)
+        return v[0] == 'inst' and v[1][:1] == [5]
     for i, v in enumerate(case['args']):
-        o = U.render_val(v)
-        reified['args'].append(U.reify_val(o, v))
+        if is_recv(v):
+            o = None             # the receiver object itself: filled in when it exists
+            reified['args'].append(v)
+        else:
+            o = U.render_val(v)
+            reified['args'].append(U.reify_val(o, v))
         args.append(o)
         r.objs[(2, i)] = o
         if v[0] == 'iter':
@@ -389,6 +403,9 @@ def run_case(case):
             continue
         if v == ['recv2']:
             o = None                 # a second instance of the class: filled in when the class exists
+        elif is_recv(v):
+            o = None
+            reified['kwargs'].append([kname, v])
         else:
             o = U.render_val(v)
             reified['kwargs'].append([kname, U.reify_val(o, v)])
@@ -403,6 +420,15 @@ def run_case(case):
         recv_objs = {'class': K, 'subclass': Sub, 'instance': k_inst, 'sub_instance': s_inst}
         if case['body'] == ['ret', ['recv']]:
             r.result_obj = recv_objs[case.get('via') or 'instance']
+        by_id = {70: k_inst, 71: s_inst}
+        for i, v in enumerate(case['args']):
+            if is_recv(v) and v[2] in by_id:
+                args[i] = by_id[v[2]]
+                r.objs[(2, i)] = by_id[v[2]]
+        for kname, v in case['kwargs']:
+            if is_recv(v) and v[2] in by_id and not (kname == 0 and case.get('self_kw')):
+                kwargs[N.pname(kname)] = by_id[v[2]]
+                r.objs[(3, kname)] = by_id[v[2]]
         for kname, v in case['kwargs']:
             if v == ['recv2']:
                 other = K.__new__(K)
